@@ -177,8 +177,15 @@ fn bitvec_trace(tr: &mut Trace, r: &mut Rng, vectors: usize) {
             Err(_) => continue,
         };
         // note: BitVec masks its storage past len, so the serialized words are the masked ones
-        let re = BitVec::from_words(back.clone(), len);
-        bitvec_group(tr, &mut Rng::new(seed_q), "rebuilt", &re, &back, len);
+        match guarded(|| BitVec::from_words(back.clone(), len)) {
+            Ok(re) => bitvec_group(tr, &mut Rng::new(seed_q), "rebuilt", &re, &back, len),
+            Err(_) => {
+                // the rebuilt constructor panicked: a build event that cannot match
+                let rl = rle_of_words(&back);
+                tr.emit(json!({"e":"build","cfg":"rebuilt","rl":rle_json(&rl),"len":len,"rate":256,
+                               "rlen":-2,"ones":-2,"zeros":-2,"empty":-2}));
+            }
+        }
     }
 }
 
@@ -219,7 +226,7 @@ fn json_group<W: AsRef<[u64]>>(trj: &mut Trace, tri: &mut Trace, doc: &Doc, id: 
     let ones = ones_of(idx.ib());
     let ls = line_starts(&doc.text);
     let bp = idx.bp();
-    let nodes_ok = bp.rank1(bp.len()) == ones.len();
+    let nodes_ok = guarded(|| bp.rank1(bp.len()) == ones.len()).unwrap_or(false);
     let starts = doc.flat.iter().map(|f| f.s).collect();
     tri.emit(build_ev(idx, "json", variant, &doc.text, Some(starts), &ones, &ls, nodes_ok, false));
     let mut r2 = Rng::new(seed_q ^ 0x5555);
@@ -242,25 +249,34 @@ fn json_trace(trb: &mut Trace, trj: &mut Trace, tri: &mut Trace, r: &mut Rng, do
         let (ia, ba) = (Aligned::of(&ib_bytes, 0), Aligned::of(&bp_bytes, 0));
         // a) borrowed words straight out of the byte buffers (the mmap use case)
         if let Ok((iw, bw)) = guarded(|| (bytes_to_words(ia.bytes()), bytes_to_words(ba.bytes()))) {
-            let re: JsonIndex<&[u64]> = JsonIndex::from_parts(iw, il, bw, bl);
-            json_group(trj, tri, &doc, i, "rebuilt-borrowed", &re, seed_q);
-            let bpr = BalancedParens::from_words(bw, bl);
-            let (n, eq) = bp_same(idx.bp(), &bpr, r);
-            trb.emit(json!({"e":"same","kind":"bp-from_words","n":n,"r":eq}));
+            match guarded(|| (JsonIndex::<&[u64]>::from_parts(iw, il, bw, bl), BalancedParens::from_words(bw, bl))) {
+                Ok((re, bpr)) => {
+                    json_group(trj, tri, &doc, i, "rebuilt-borrowed", &re, seed_q);
+                    let (n, eq) = bp_same(idx.bp(), &bpr, r);
+                    trb.emit(json!({"e":"same","kind":"bp-from_words","n":n,"r":eq}));
+                }
+                Err(_) => trb.emit(json!({"e":"same","kind":"rebuild-panicked-borrowed","n":1,"r":-2})),
+            }
         }
         // b) owned words
         if let Ok((iw, bw)) = guarded(|| (bytes_to_words_vec(ia.bytes()), bytes_to_words_vec(ba.bytes()))) {
-            let re = JsonIndex::from_parts(iw, il, bw.clone(), bl);
-            json_group(trj, tri, &doc, i, "rebuilt-owned", &re, seed_q);
-            let bpr = BalancedParens::new(bw, bl);
-            let (n, eq) = bp_same(idx.bp(), &bpr, r);
-            trb.emit(json!({"e":"same","kind":"bp-new","n":n,"r":eq}));
+            match guarded(|| (JsonIndex::from_parts(iw.clone(), il, bw.clone(), bl), BalancedParens::new(bw.clone(), bl))) {
+                Ok((re, bpr)) => {
+                    json_group(trj, tri, &doc, i, "rebuilt-owned", &re, seed_q);
+                    let (n, eq) = bp_same(idx.bp(), &bpr, r);
+                    trb.emit(json!({"e":"same","kind":"bp-new","n":n,"r":eq}));
+                }
+                Err(_) => trb.emit(json!({"e":"same","kind":"rebuild-panicked-owned","n":1,"r":-2})),
+            }
         }
         // c) through SemiIndex::from_bytes
         if i % 2 == 0 {
-            if let Ok(semi) = guarded(|| SemiIndex::from_bytes(ia.bytes(), ba.bytes())) {
-                let re = JsonIndex::from_parts(semi.ib, il, semi.bp, bl);
-                json_group(trj, tri, &doc, i, "rebuilt-semi", &re, seed_q);
+            match guarded(|| {
+                let semi = SemiIndex::from_bytes(ia.bytes(), ba.bytes());
+                JsonIndex::from_parts(semi.ib, il, semi.bp, bl)
+            }) {
+                Ok(re) => json_group(trj, tri, &doc, i, "rebuilt-semi", &re, seed_q),
+                Err(_) => trb.emit(json!({"e":"same","kind":"rebuild-panicked-semi","n":1,"r":-2})),
             }
         }
     }
